@@ -1,10 +1,8 @@
 package sym
 
 import (
-	"fmt"
 	"golang.org/x/tools/go/ssa"
 	"math/big"
-	"os"
 
 	"symgo/smt"
 )
@@ -37,9 +35,6 @@ func init() {
 func (it *Interp) quoTerm(x, y *smt.Term) *smt.Term {
 	if !x.IsConst() || !y.IsConst() {
 		rx, ry := it.rangeOf(x), it.rangeOf(y)
-		if os.Getenv("SYMGO_DBG") != "" {
-			fmt.Printf("quoTerm x=%v..%v y=%v..%v facts=%d pc=%d\n", rx.lo, rx.hi, ry.lo, ry.hi, len(it.ranges().sfacts), len(it.P.PC))
-		}
 		if rx.nonNeg() && ry.pos() {
 			return it.C.Div(x, y)
 		}
